@@ -136,12 +136,12 @@ impl Property for C18 {
     }
     fn runs(&self, tier: Tier) -> u64 {
         match tier {
-            Tier::Quick => 640,
+            Tier::Quick => 2_200,
             Tier::Thorough => 48_000,
         }
     }
     fn rule(&self) -> &'static str {
-        "per run: chip (AY/YM), stereo mode (7), sample rate (8000..384000), a random register-write history interleaved with sample generation, then one probe segment: tone pitch (channel, TP incl. 0), noise rate (NP incl. 0), envelope contour (16 shapes, EP), volume ladder (16 steps, AY and YM), mixer gating (64 masks), panning (mode x channel), bound (random history only), or port read-back through the real machine (register numbers 0..255); distinct = (feature, parameter bucket, rate bucket, mode, chip)"
+        "per run: chip (AY/YM), stereo mode (7), sample rate (8000..384000), a random register-write history interleaved with sample generation, then one probe segment: tone pitch (channel, TP incl. 0), noise rate (NP incl. 0), envelope contour (16 shapes, EP), volume ladder (16 steps, AY and YM), mixer gating (64 masks), panning (mode x channel), bound (random history only), port read-back through the real machine (register numbers 0..255), order independence of register writes, or listener independence (a channel that starts to listen to the tone / noise / envelope generator late hears exactly what one that listened all along hears); distinct = (feature, parameter bucket, rate bucket, mode, chip)"
     }
     fn state_measure(&self) -> &'static str {
         "none (see distinct)"
@@ -160,7 +160,7 @@ impl Property for C18 {
         ]
     }
     fn expected_probes(&self) -> Vec<&'static str> {
-        vec!["pitch", "pitch_tp0", "noise", "envelope", "envelope_period_measured", "ladder", "gating", "panning", "bound", "readback", "rate_below_27k", "ym_chip", "order_independence", "machine_retrigger"]
+        vec!["pitch", "pitch_tp0", "noise", "envelope", "envelope_period_measured", "ladder", "gating", "panning", "bound", "readback", "rate_below_27k", "ym_chip", "order_independence", "machine_retrigger", "listener_independence"]
     }
     fn time_unit_hz(&self) -> f64 {
         44_100.0
@@ -168,7 +168,7 @@ impl Property for C18 {
 
     fn gen(&self, rng: &mut Rng, _tier: Tier, idx: u64) -> Scenario {
         let mut sc = Scenario::new();
-        sc.set("feature", (idx % 10) as i64);
+        sc.set("feature", (idx % 11) as i64);
         sc.set("ym", rng.bool() as i64);
         sc.set("mode", rng.range(0, 6));
         let rate = if rng.bool() { *rng.pick(&super::c19::RATES) as i64 } else { rng.range(8000, 384000) };
@@ -176,7 +176,13 @@ impl Property for C18 {
         sc.set("seed", (rng.next() >> 8) as i64);
         sc.set("ch", rng.range(0, 2));
         sc.set("garbage", rng.range(0, 30));
-        match idx % 10 {
+        match idx % 11 {
+            10 => {
+                sc.set("sub", rng.range(0, 3));
+                sc.set("shape", rng.range(0, 15));
+                sc.set("ep", *rng.pick(&[1i64, 2, 5, 20, 100, 400]));
+                sc.set("idle_permille", rng.range(0, 6000));
+            }
             0 => {
                 let tp = match rng.below(6) {
                     0 => 0,
@@ -203,7 +209,7 @@ impl Property for C18 {
     }
 
     fn exec(&self, sc: &Scenario, ctx: &mut RunCtx) -> Result<(), Fail> {
-        let feature = sc.get("feature").clamp(0, 9);
+        let feature = sc.get("feature").clamp(0, 10);
         let ym = sc.get("ym") != 0;
         let mode = sc.get("mode").clamp(0, 6);
         let rate = sc.get("rate").clamp(8000, 384000) as usize;
@@ -280,6 +286,93 @@ impl Property for C18 {
             }
             cover(ctx, 0);
             ctx.units += 1;
+            return Ok(());
+        }
+        if feature == 10 {
+            // ---- listener independence: the tone, noise and envelope generators of the chip run whether
+            // or not anything listens to them; mixer and amplitude registers only gate / select. Two chips
+            // with identical histories: on one the channel listens (tone or noise enabled, envelope mode or
+            // volume set) during an idle time, on the other only from the end of it. From then on (after
+            // the resampler's finite memory) the two streams must be bit-identical.
+            ctx.probe("listener_independence");
+            let sub = sc.get("sub").clamp(0, 3);
+            let shape = sc.get("shape").clamp(0, 15) as u8;
+            let ep = sc.get("ep").clamp(1, 2000) as u16;
+            let mut a = Chip::new(ym, mode, rate);
+            let mut b = Chip::new(ym, mode, rate);
+            let garbage = sc.get("garbage").clamp(0, 200) as usize;
+            let mut ga = rng.clone();
+            let mut gb = rng.clone();
+            a.garbage(&mut ga, garbage);
+            b.garbage(&mut gb, garbage);
+            let mut r3 = Rng::new(sc.get("seed") as u64 ^ 0x11D1E);
+            let tp = r3.range(20, 2000) as u16;
+            let np = r3.range(1, 31) as u8;
+            let v = 1 + (r3.u8() % 15);
+            let spc = 256.0 * ep as f64 / CLK * fr; // samples per envelope ramp
+            let idle = ((spc * sc.get("idle_permille").clamp(0, 6000) as f64 / 1000.0) as usize).min(300_000);
+            let chb = ch as u8;
+            for c in [&mut a, &mut b] {
+                c.quiet();
+                c.w(chb * 2, tp as u8);
+                c.w(chb * 2 + 1, (tp >> 8) as u8);
+                c.w(6, np);
+                c.w(11, ep as u8);
+                c.w(12, (ep >> 8) as u8);
+            }
+            // (register, value while idle on the late chip, value while listening)
+            let (reg, idle_v, listen_v, r7): (u8, u8, u8, u8) = match sub {
+                0 => (8 + chb, v, 0x10 | v, 0x3F),                         // envelope mode bit
+                1 => (7, 0x3F, 0x3F & !(1 << chb), 0),                     // tone enable
+                2 => (7, 0x3F, 0x3F & !(8 << chb), 0),                     // noise enable
+                _ => (8 + chb, 0, v, 0x3F & !(1 << chb) & !(8 << chb)),    // volume
+            };
+            if sub == 1 || sub == 2 {
+                a.w(8 + chb, v);
+                b.w(8 + chb, v);
+            } else {
+                a.w(7, r7);
+                b.w(7, r7);
+            }
+            a.w(reg, listen_v);
+            b.w(reg, idle_v);
+            a.gen(64, None);
+            b.gen(64, None);
+            a.w(13, shape);
+            b.w(13, shape);
+            a.gen(idle, None);
+            b.gen(idle, None);
+            a.w(reg, listen_v);
+            b.w(reg, listen_v);
+            let n = 2500;
+            let (mut oa, mut ob) = (vec![], vec![]);
+            a.gen(n, Some(&mut oa));
+            b.gen(n, Some(&mut ob));
+            let skip = 64;
+            if let Some(i) = oa.iter().zip(ob.iter()).skip(skip).position(|(x, y)| x.0.to_bits() != y.0.to_bits() || x.1.to_bits() != y.1.to_bits()) {
+                let what = ["envelope mode (bit 4 of the amplitude register)", "the tone enable bit", "the noise enable bit", "a non-zero volume"][sub as usize];
+                return Err(Fail::new(
+                    "C18.listener_dependence",
+                    &format!("sub={},oneshot={}", sub, (sub == 0 && (shape < 8 || shape & 1 == 1)) as u8),
+                    format!(
+                        "channel {} given {} {} samples ({:.2} envelope ramps; shape {} EP={} TP={} NP={}) after the generators were started differs from sample {} on from a chip on which it listened all the time: {:?} vs {:?}",
+                        ch,
+                        what,
+                        idle,
+                        idle as f64 / spc,
+                        shape,
+                        ep,
+                        tp,
+                        np,
+                        skip + i,
+                        ob[skip + i],
+                        oa[skip + i]
+                    ),
+                ));
+            }
+            cover(ctx, sub as u64 * 16 + shape as u64);
+            ctx.units += 1;
+            ctx.sim_t += (idle + n) as u64 * 44100 / rate as u64;
             return Ok(());
         }
         if feature == 9 {
